@@ -810,7 +810,7 @@ impl Property for StepProp {
         let mut p = Profile::base(*r.pick(self.focus));
         (self.tune)(&mut p, &mut r);
         let mut t = gen::trace(self.id, seed, index, &p);
-        if self.id == "C16" && t.bytes_total() <= gen::bound(40) && r.chance(1, 4) {
+        if self.id == "C16" && t.bytes_total() <= gen::bound(40) && t.columns * t.lines <= 600 && t.steps.len() <= gen::bound(60) && r.chance(1, 4) {
             // fault-point enumeration: one more resize at EVERY operation boundary of this history
             let g = gen::Geo { cols: t.columns, lines: t.lines };
             let (l, c) = gen::resize_target(&mut r, g, g);
